@@ -40,10 +40,18 @@ CLAIMED = {
    text="TLC enumerates every expression AST of the annotation grammar to the depth bound and checks that the transcribed transformer preserves Sem, leaves no PEP 604 union, is a fixpoint, is the identity when nothing is to do and uses the documented typing forms. Each emitted AST is unparsed, transformed by the real code, parsed back, and TLC evaluates the same five properties on (input AST, output AST, second output AST); both strings are also evaluated in Python and their origin/args structure compared.",
    ref="DESIGN.md section 4 C20",
    note="Trusted: TLC; Python's ast.parse/unparse (round trip audited on the emitted universe); Sem as the definition of 'same structure'. Depth 2 over 5 leaves / depth 1 over 14 leaves exhaustively (thorough: depth 2 full in the model), random |-chains beyond."),
+ "C19": dict(
+   engine="Slotted",
+   technique="TLA+ spec Slotted.tla (decoration histories: _stack guard, slot computation, CPython layout rule vs NeverRaises/StackEmpty/SlotFormula), exhaustive TLC; TLC-emitted histories materialised with real decorator syntax, slotted class vs plain twin under an operation battery, validated by TLC trace spec Slotted_Trace.tla",
+   level="model_checking",
+   text="TLC explores every decoration history up to the bound (names repeated, bases in slotted or plain form, all flag pairs) and checks that decoration never raises, the module-global guard is empty between decorations and the slot formula holds (and that the pinned behaviour violates this). Emitted histories are executed against the real decorator at module and function-local scope under 7 dataclass flag sets; each event (outcome, __slots__, dict/weakref support, len(_stack), battery differences against the plain twin) is validated by TLC with the guard as a hidden variable.",
+   ref="DESIGN.md section 4 C19",
+   note="Trusted: TLC; the Python battery (construct/eq/order/hash/repr/copy/deepcopy/pickle 2-5/setattr/asdict/replace) whose equality TLC only asserts; bounded to histories of 3 (thorough 4) with <=2 own fields."),
 }
 NOT_BUILT = "check not built yet (build in progress; see DESIGN.md section 7 build order)"
 
 ENGINES = {
+ "Slotted": dict(path="spec/Slotted.tla", kind="TLA+ spec + TLC (exhaustive, history emission, trace validation) + harness/drivers/c19.py"),
  "Future": dict(path="spec/Future.tla", kind="TLA+ spec + TLC (exhaustive, case emission, trace validation) + harness/drivers/c20.py"),
  "Binding": dict(path="spec/Binding.tla", kind="TLA+ spec + TLC (exhaustive, table synthesis Binding_Synth.tla, case emission, trace validation) + harness/drivers/c10.py"),
  "Union": dict(path="spec/Union.tla", kind="TLA+ spec + TLC (exhaustive, trace validation) + harness/drivers/c08.py"),
